@@ -41,6 +41,9 @@ func parseExe(root *Root, reader io.Reader) (exe *Executable, err error) {
 			break
 		}
 		var op *Op
+		// Where the token starts. After readToken the scanner is past the
+		// character that follows the token, which may be on the next line.
+		line, col := p.line, p.col
 		token, err = p.readToken()
 		if err == nil {
 			switch token {
@@ -82,7 +85,7 @@ func parseExe(root *Root, reader io.Reader) (exe *Executable, err error) {
 					exe.Ops[""] = op
 				}
 			default:
-				err = parseError(p.line, p.col-len(token), "'%s' is not a valid executable operation type", token)
+				err = parseError(line, col, "'%s' is not a valid executable operation type", token)
 			}
 		}
 	}
